@@ -95,6 +95,11 @@ CHECKS = {
          "For ProbMinHash2, 3, 3a and 3a-Sha (u64 and String keys), m in {2,3,4,8,16,(33)}: every non-empty weighted set over 4 (5) items x weights {absent,0.5,1,3,1e-300,1e300} (26975 sets quick), ALL insertion orders, every entry point (hash_item, hash_wset, IndexMap, std HashMap whose order is per-process random), every 2-way batch split and every re-insertion of an inserted pair at every later point - 2.3e6 executions quick. Oracle (exact): the registers read through hook H2 equal the position-wise minimum, and the signature the argmin, of the REAL single-item runs, which makes the signature a function of the weighted set; bit-equal ties are classified; every position holds an item of the set. Forced near-ties (weights tuned from real single-item runs so that two items differ by 1e-9..3e-15 at a chosen position, both orders), scaling by 2^k, the union clause on sets up to 300 items, ProbMinHash3 == ProbMinHash3a on all sets, and single items with weights down to the smallest normal float (known finding for w < 1e-304).",
          "hook H2 faithful; other weights/items behave like the alphabet since only comparisons of values scaling as 1/w matter",
          "DESIGN.md §4 C02"),
+ "C06": ("exploration",
+         "exhaustive stream enumeration (monotonicity), exhaustive enumeration of reduction orders with trace validation (parallel estimator), block enumeration of disjoint sets (accuracy)",
+         "Monotone: every stream of length 5 (6) over {6 items, a burst of 12, a merge with a fixed sketch} for 5 parameter sets (1.6e5 streams quick) - the estimate never decreases after any step (exact). Parallel estimator: rayon's scheduler cannot be controlled, so its nondeterminism is modelled: for m<=9 (11) and 3 bases ALL Catalan(m-1) bracketings of the sum of register terms are enumerated, each must agree with the sequential estimate within m*2^-52, and the real get_cardinal_estimate run under pools of 1,2,3,4,8,16 threads must be a member of the modelled outcome set (2916 real runs validated); on every accuracy sketch the parallel and sequential estimates must agree to rounding. Accuracy: n in {1,2,10,1e3,1e5,(1e6)} x m in {64,256,(1024,4096)} x 3 (b,q) x u16/u32 x with/without repetition on T disjoint sets (T=36m where the budget allows): |mean(n^/n)-1| <= 2 rsd^2 + 6 se and |sd/rsd-1| <= 0.15 + 6 se, confirmed on a 4x larger fresh block.",
+         "rayon reduction modelled as order-preserving bracketings (validated by membership of real runs); accuracy is a finite-population statement (observed bias ~ rsd^2, i.e. half the allowed 2 rsd^2)",
+         "DESIGN.md §4 C06"),
 }
 PENDING_REASON = "check not built yet in this revision (see DESIGN.md §4 for the planned model-checking approach)"
 
